@@ -763,6 +763,21 @@ func engineStatic(which string) engineFn {
 							r[look] = g.pick([]string{"2", "1", "00FF00", "3"})
 						}
 					}
+					if g.coin(0.5) {
+						// cells that are neither blank nor one of the documented values (zero-padded, signed, spaced, foreign digits): what
+						// they decode to is for the model (the decoder tables) to say; run through the correspondence only
+						odd := explicit.clone()
+						for _, r := range odd.table(db.file).rows {
+							if g.coin(0.6) {
+								r[db.col] = g.pick([]string{"00", "+0", "-0", "01", "02", "+2", "03", "+3", "000", " 1", "1 ", "2.0", "\u0663", "10", "4", "-1", "0x1"})
+							}
+						}
+						mo := renderFeed(nil, canonicalPresentation(odd), odd)
+						if ro := runStatic(mo, false, inherit); ro.err == nil && !ro.cr.panicked && !ro.cr.hung {
+							ctx.evaluations++
+							addCase(inherit, mo, ro.s, feedZones(odd))
+						}
+					}
 					var dumps [][]string
 					var mss [][]member
 					okAll := true
